@@ -77,7 +77,7 @@ def main():
         if margin < 2e-6:
             continue
         lw = jnp.log(jnp.asarray(ws, dtype=jnp.float32)) + rng.choice([0.0, 3.0, -7.5])
-        smc.uniform = types.SimpleNamespace(sample=lambda lo, hi, a=a, b=b: jnp.float32(a / b))
+        smc.uniform = types.SimpleNamespace(sample=lambda lo, hi, a=a, b=b: jnp.float32(lo) + jnp.float32(a / b) * (jnp.float32(hi) - jnp.float32(lo)))
         try:
             idx = [int(i) for i in np.asarray(smc.systematic_resample(lw, m))]
             cases.append({"kind": "sys", "ws": ws, "N": m, "a": a, "b": b, "idx": idx, "wkind": kind})
@@ -112,7 +112,7 @@ def main():
             margin = min(abs((j * b + a) * T - cc * n * b) for j in range(n) for cc in cs_) / (n * b * T)
             if margin < 2e-6:
                 continue
-            smc.uniform = types.SimpleNamespace(sample=lambda lo, hi, a=a, b=b: jnp.float32(a / b))
+            smc.uniform = types.SimpleNamespace(sample=lambda lo, hi, a=a, b=b: jnp.float32(lo) + jnp.float32(a / b) * (jnp.float32(hi) - jnp.float32(lo)))
             c["a"], c["b"] = a, b
         try:
             out_pc = seed(lambda: smc.resample(pc, method=method))(jax.random.key(rng.randrange(10 ** 6)))
